@@ -78,7 +78,7 @@ def run(c):
         key = re.sub(r"-?[0-9]+s", "#s", ",".join(sorted(why)))[:80] or "other"
         seen[key] = seen.get(key, 0) + 1
         how = ""
-        if seen[key] <= 2:
+        if c.want_reproduction(key, seen[key]):
             def still_bad(evs):
                 ev2 = [{k: v for k, v in x.items() if k not in ("sc", "ev")} for x in evs]
                 return bool(ev2) and bool(c.validate_traces("SignVarTrace", "SignVarTrace.cfg", ev2))
